@@ -244,6 +244,10 @@ def _run(ctx, prop, replay):
         "notes": ctx.notes, "spec_decisions": getattr(prop, "SPEC_DECISIONS", []),
     }
     cov.update(ctx.cov)
+    # EVIDENCE.schema: `exhaustive` is a boolean ("the run enumerated a finite space completely"); plugins describe the part of a
+    # run that WAS enumerated completely in words / numbers - that description goes to `exhaustive_part`, the run as a whole is sampled
+    if "exhaustive" in cov and not isinstance(cov["exhaustive"], bool):
+        cov["exhaustive_part"] = cov.pop("exhaustive")
     if not replay:          # a replay run looks at one stored case: it must not overwrite the evidence of the last full run
         C.write_evidence(ctx, "proof", cov, prop.ASSUMPTIONS, nviol)
     for l in out_lines:
